@@ -72,6 +72,84 @@ def dump_db(db):
     return '[\n' + ';\n'.join(cats) + ']'
 
 
+
+# ---- T1b: integer kernels translated statement by statement (fail-closed) ----
+# Python ints are unbounded like Z; // and % are floor division/modulo with the divisor's sign (Z.div / Z.modulo), >> and & act on the
+# infinite two's-complement representation (Z.shiftr / Z.land).  Supported: names, int constants, + - * // % >> << & | unary -, comparisons,
+# assignments, augmented assignments, `if` blocks that only assign, `return`.  Anything else raises TranslateError.
+def _zexpr(n, env):
+    if isinstance(n, ast.Constant) and isinstance(n.value, int) and not isinstance(n.value, bool):
+        return '(%d)' % n.value
+    if isinstance(n, ast.Name):
+        need(n.id in env, 'integer kernel: unknown name %r' % n.id)
+        return env[n.id]
+    if isinstance(n, ast.UnaryOp) and isinstance(n.op, ast.USub):
+        return '(- %s)' % _zexpr(n.operand, env)
+    if isinstance(n, ast.BinOp):
+        ops = {ast.Add: '(%s + %s)', ast.Sub: '(%s - %s)', ast.Mult: '(%s * %s)', ast.FloorDiv: '(%s / %s)', ast.Mod: '(%s mod %s)',
+               ast.RShift: '(Z.shiftr %s %s)', ast.LShift: '(Z.shiftl %s %s)', ast.BitAnd: '(Z.land %s %s)', ast.BitOr: '(Z.lor %s %s)'}
+        need(type(n.op) in ops, 'integer kernel: operator %s' % type(n.op).__name__)
+        return ops[type(n.op)] % (_zexpr(n.left, env), _zexpr(n.right, env))
+    if isinstance(n, ast.Call) and isinstance(n.func, ast.Name) and n.func.id == 'len' and len(n.args) == 1:
+        key = 'len(%s)' % ast.unparse(n.args[0])
+        need(key in env, 'integer kernel: %s is not a declared input' % key)
+        return env[key]
+    need(False, 'integer kernel: expression %s' % ast.dump(n)[:80])
+
+
+def _zcond(n, env):
+    need(isinstance(n, ast.Compare) and len(n.ops) == 1, 'integer kernel: condition %s' % ast.dump(n)[:80])
+    a, b = _zexpr(n.left, env), _zexpr(n.comparators[0], env)
+    ops = {ast.Lt: '(%s <? %s)', ast.LtE: '(%s <=? %s)', ast.Gt: '(%s >? %s)', ast.GtE: '(%s >=? %s)', ast.Eq: '(%s =? %s)', ast.NotEq: '(negb (%s =? %s))'}
+    need(type(n.ops[0]) in ops, 'integer kernel: comparison %s' % type(n.ops[0]).__name__)
+    return ops[type(n.ops[0])] % (a, b)
+
+
+def _zblock(stmts, env, result):
+    """stmts -> Coq expression; `result` is the expression (over Coq variable names) to yield when the block falls through."""
+    if not stmts:
+        return result(env)
+    st, rest = stmts[0], stmts[1:]
+    if isinstance(st, ast.Return):
+        return _zexpr(st.value, env)
+    if isinstance(st, (ast.Assign, ast.AugAssign)):
+        tgt = st.targets[0] if isinstance(st, ast.Assign) else st.target
+        need(isinstance(tgt, ast.Name) and (isinstance(st, ast.AugAssign) or len(st.targets) == 1), 'integer kernel: assignment target')
+        val = st.value if isinstance(st, ast.Assign) else ast.BinOp(left=ast.Name(id=tgt.id, ctx=ast.Load()), op=st.op, right=st.value)
+        e = _zexpr(val, env)
+        v = 'v_%s_%d' % (tgt.id, len(env))
+        env2 = dict(env); env2[tgt.id] = v
+        return '(let %s := %s in %s)' % (v, e, _zblock(rest, env2, result))
+    if isinstance(st, ast.If):
+        need(all(isinstance(x, (ast.Assign, ast.AugAssign)) for x in st.body + st.orelse), 'integer kernel: if-body with other statements')
+        names = []
+        for x in st.body + st.orelse:
+            t = x.targets[0] if isinstance(x, ast.Assign) else x.target
+            need(isinstance(t, ast.Name), 'integer kernel: if-body target')
+            if t.id not in names:
+                names.append(t.id)
+        need(all(nm in env for nm in names), 'integer kernel: variable first assigned inside an if')
+        tup = lambda e: e[names[0]] if len(names) == 1 else '(' + ', '.join(e[nm] for nm in names) + ')'
+        then_e = _zblock(st.body, env, tup)
+        else_e = _zblock(st.orelse, env, tup)
+        fresh = ['v_%s_%d' % (nm, len(env)) for nm in names]
+        env2 = dict(env)
+        for nm, f in zip(names, fresh):
+            env2[nm] = f
+        pat = fresh[0] if len(names) == 1 else "'(" + ', '.join(fresh) + ')'
+        return '(let %s := (if %s then %s else %s) in %s)' % (pat, _zcond(st.test, env), then_e, else_e, _zblock(rest, env2, result))
+    need(False, 'integer kernel: statement %s' % type(st).__name__)
+
+
+def int_kernel(name, params, stmts, inputs=None, result=None):
+    """Coq definition text `Definition <name> (params : Z) : Z := ...` for the given statements."""
+    env = {p: p for p in params}
+    env.update(inputs or {})
+    body = _zblock(stmts, env, result or (lambda e: need(False, 'integer kernel %s falls through without a result' % name)))
+    args = ' '.join('(%s : Z)' % p for p in params)
+    return 'Definition %s %s : Z := %s.' % (name, args, body)
+
+
 def main(out_path):
     from ssh_audit.ssh2_kexdb import SSH2_KexDB
     from ssh_audit.ssh1_kexdb import SSH1_KexDB
@@ -327,6 +405,27 @@ def main(out_path):
          and lit(dl[0].right) == '\n', 'main(): delimiter print')
     w('Definition src_multi_delim_char : string := ' + cstr(lit(dl[0].left.left)) + '. Definition src_multi_delim_count : nat := %d%%nat.' % lit(dl[0].left.right))
     w('Definition src_multi_json_open : string := %s. Definition src_multi_json_sep : string := %s. Definition src_multi_json_close : string := %s.' % (cstr(consts[1]), cstr(consts[0]), cstr(consts[2])))
+
+    # integer kernels, translated statement by statement from the current source (proofs/TieProofs.v proves the hand-written models equal to them)
+    t_kexdh = ast.parse(src('kexdh.py'))
+    adj = func_node(t_kexdh, 'KexDH.__adjust_key_size')
+    need([a.arg for a in adj.args.args] == ['size'], '__adjust_key_size signature')
+    w(int_kernel('src_adjust_key_size', ['size'], adj.body))
+    sp = func_node(t_sock, 'SSH_Socket.send_packet')
+    # statements between `payload = self.write_flush()` and the first use of struct.pack: the padding and length computation
+    seg = []
+    for st in sp.body[1:]:
+        if isinstance(st, ast.Assign) and isinstance(st.targets[0], ast.Name) and st.targets[0].id in ('pad_bytes', 'data'):
+            break
+        seg.append(st)
+    need(len(seg) >= 2 and isinstance(sp.body[0], ast.Assign) and sp.body[0].targets[0].id == 'payload', 'send_packet shape')
+    w(int_kernel('src_send_packet_padding', ['n'], seg, inputs={'len(payload)': 'n'}, result=lambda e: e['padding']))
+    w(int_kernel('src_send_packet_length', ['n'], seg, inputs={'len(payload)': 'n'}, result=lambda e: e['plen']))
+    rp = func_node(t_sock, 'SSH_Socket.read_packet')
+    s1 = [st for st in ast.walk(rp) if isinstance(st, ast.Assign) and isinstance(st.targets[0], ast.Name) and st.targets[0].id == 'padding_length'
+          and isinstance(st.value, ast.BinOp)]
+    need(len(s1) == 1, 'read_packet: SSH-1 padding_length computation')
+    w(int_kernel('src_ssh1_padding_length', ['packet_length'], [ast.Return(value=s1[0].value)]))
 
     text = '\n'.join(o) + '\n'
     old = None
